@@ -16,7 +16,7 @@
 (* an ARRAY IDENTITY (index into `heap`); writing through an identity that is *)
 (* also referenced from the other buffer corrupts that buffer, exactly the    *)
 (* hazard in the real code.                                                   *)
-EXTENDS Naturals, Sequences, FiniteSets, TLC, Emit
+EXTENDS Integers, Sequences, FiniteSets, TLC, Emit
 
 CONSTANTS NPar,      \* optimisable parameters have ranks 1..NPar
           N,         \* evaluated cells have ranks NPar+1..N; N is the output cell
@@ -30,7 +30,7 @@ Pars  == 1..NPar
 Cells == (NPar + 1)..N
 Ranks == 1..N
 NoArr == 0
-Mixed == 99
+Mixed == -1   \* (a token of a real trace can be any positive integer)
 
 VARIABLES cv,     \* cv[b][r], b \in {0,1}: parameter value | provenance tuple | array id
           heap,   \* heap[id]: content of array id (a provenance tuple)
